@@ -578,6 +578,10 @@ func (ld *Layerdefs) mountOne(layer *Layerinfo) error {
 			if nil != err {
 				return err
 			}
+			err = ld.refreshMountInfo()
+			if nil != err {
+				return err
+			}
 		}
 	}
 	expanded, err := ld.expandConfigMounts(layer)
